@@ -16,7 +16,7 @@ package generator
 
 //@ func WriteDeclarations
 //@   props C19
-//@   modifies H$S$github.com.benoitkugler.gomacro.generator.Declaration
+//@   modifies contents(decls)
 //@   -- frame: the slice is permuted in place, nothing is lost or invented
 //@   ensures len(decls) == len(old(decls))
 //@   ensures forall i int :: 0 <= i && i < len(decls) ==> (exists j int :: 0 <= j && j < len(decls) && decls[i] == old(decls[j]))
